@@ -320,9 +320,12 @@ fn big_frame_wh(o: &Opts, rng: &mut Rng, w: usize, h: usize) -> (Vec<[f32; 3]>, 
 }
 
 fn emit_tf_probe(sh: &mut Shards, ev: &str, t: u8, dir: &str, px: &[[f32; 3]], w: usize, h: usize, idx: &[usize], res: Result<Vec<[f32; 3]>, &'static str>) {
+    sh.emit(&tf_probe_body(ev, "", t, dir, px, w, h, idx, res));
+}
+fn tf_probe_body(ev: &str, extra: &str, t: u8, dir: &str, px: &[[f32; 3]], w: usize, h: usize, idx: &[usize], res: Result<Vec<[f32; 3]>, &'static str>) -> String {
     let sel: Vec<[f32; 3]> = idx.iter().map(|&i| px[i]).collect();
     let mut s = String::new();
-    let _ = write!(s, "\"ev\":\"{ev}\",\"probe\":1,\"tc\":{t},\"dir\":\"{dir}\",\"w\":{w},\"h\":{h},\"x\":");
+    let _ = write!(s, "\"ev\":\"{ev}\",\"probe\":1,{extra}\"tc\":{t},\"dir\":\"{dir}\",\"w\":{w},\"h\":{h},\"x\":");
     list(&mut s, &sel, px_fx);
     match res {
         Ok(out) => {
@@ -341,7 +344,90 @@ fn emit_tf_probe(sh: &mut Shards, ev: &str, t: u8, dir: &str, px: &[[f32; 3]], w
             let _ = write!(s, ",\"res\":\"{e}\"");
         }
     }
-    sh.emit(&s);
+    s
+}
+
+/// SCHEDULES: the curves converted by 8 threads AT THE SAME TIME in a process that has not converted anything yet (lazily
+/// built shared tables, caches behind locks).  Runs in a child process (`concworker <variant>`), prints event bodies.
+/// variant 0: every thread starts with the same curve (PQ first); variant 1: every thread starts with a different curve.
+pub fn conc_worker(variant: u64, o: &Opts) {
+    use std::sync::{Arc, Barrier};
+    let nthreads = 8usize;
+    let barrier = Arc::new(Barrier::new(nthreads));
+    let (w, h) = (251usize, 163usize); // 40,913 pixels: above the sizes at which per-frame tables usually start to pay
+    let n = w * h;
+    let px: Arc<Vec<[f32; 3]>> = Arc::new((0..n).map(|i| { let v = (i % 4099) as f32 / 4098.0; [v, 1.0 - v, 0.25 + 0.5 * v] }).collect());
+    let mut order: Vec<(u8, &'static str)> = vec![(16, "lin"), (16, "gam")];
+    for &t in TC_SUP.iter().filter(|&&t| t != 16) {
+        order.push((t, "lin"));
+        order.push((t, "gam"));
+    }
+    let seed = o.seed;
+    let handles: Vec<_> = (0..nthreads)
+        .map(|j| {
+            let (b, px, mut ord) = (barrier.clone(), px.clone(), order.clone());
+            if variant == 1 {
+                ord.rotate_left((j * 3) % order.len());
+            }
+            std::thread::spawn(move || {
+                let mut rng = Rng::new(seed, 0x0303_c0c0 + j as u64);
+                let mut idx: Vec<usize> = (0..6).chain(n - 6..n).collect();
+                for _ in 0..12 {
+                    idx.push(rng.below(n as u64) as usize);
+                }
+                idx.sort_unstable();
+                idx.dedup();
+                let mut out = Vec::new();
+                b.wait();
+                for round in 0..(1 + variant) {
+                    for &(t, dir) in &ord {
+                        let res = apply(t, dir, &px, w, h);
+                        out.push(tf_probe_body("tf", &format!("\"conc\":[{variant},{j},{round}],"), t, dir, &px, w, h, &idx, res));
+                    }
+                }
+                out
+            })
+        })
+        .collect();
+    let stdout = std::io::stdout();
+    let mut lock = stdout.lock();
+    use std::io::Write as _;
+    for hd in handles {
+        match hd.join() {
+            Ok(lines) => {
+                for s in lines {
+                    let _ = writeln!(lock, "{s}");
+                }
+            }
+            Err(_) => {
+                let _ = writeln!(lock, "\"ev\":\"tf\",\"probe\":1,\"conc\":[{variant},-1,0],\"tc\":16,\"dir\":\"lin\",\"w\":{w},\"h\":{h},\"x\":[],\"res\":\"panic\"");
+            }
+        }
+    }
+}
+/// run the two concurrent variants in fresh child processes and forward their events
+fn conc_events(sh: &mut Shards, o: &Opts) -> u64 {
+    let exe = std::env::current_exe().expect("exe");
+    let mut n = 0;
+    for variant in 0..2u64 {
+        let out = std::process::Command::new(&exe).args(["concworker", &variant.to_string(), "--seed", &o.seed.to_string()]).stderr(std::process::Stdio::null()).output();
+        match out {
+            Ok(o2) if o2.status.success() => {
+                for line in String::from_utf8_lossy(&o2.stdout).lines() {
+                    if line.starts_with("\"ev\"") {
+                        sh.emit(line);
+                        n += 1;
+                    }
+                }
+            }
+            Ok(o2) => {
+                sh.emit(&format!("\"ev\":\"tf\",\"probe\":1,\"conc\":[{variant},-1,0],\"tc\":16,\"dir\":\"lin\",\"w\":1,\"h\":1,\"x\":[],\"res\":\"abort:{}\"", o2.status.to_string().replace('"', "'")));
+                n += 1;
+            }
+            Err(_) => {}
+        }
+    }
+    n
 }
 
 pub fn gen_c03(sh: &mut Shards, o: &Opts) -> serde_json::Value {
@@ -460,6 +546,10 @@ pub fn gen_c03(sh: &mut Shards, o: &Opts) -> serde_json::Value {
                 samples += 3 * few.len() as u64;
             }
         }
+    }
+    // schedules: 8 threads converting at the same time in a fresh process (skipped in the thinned tier)
+    if !o.mini {
+        samples += 3 * 24 * conc_events(sh, o);
     }
     // aliases of BT.1886: bit-identical results on a shared input set (both directions)
     for (di, dir) in ["lin", "gam"].iter().enumerate() {
